@@ -961,6 +961,43 @@ fn dump_fns<'tcx>(tcx: TyCtxt<'tcx>) -> J {
     J::Arr(out)
 }
 
+fn dump_impls<'tcx>(tcx: TyCtxt<'tcx>) -> J {
+    // headers of all trait impls: self type, trait, and the where-clauses / bounds in force (as printed predicates). Needed for
+    // marker traits (FusedIterator, ExactSizeIterator, ..) whose impls have no method bodies at all.
+    let mut out = Vec::new();
+    for id in tcx.hir_crate_items(()).definitions() {
+        let did = id.to_def_id();
+        if !matches!(tcx.def_kind(did), DefKind::Impl { .. }) {
+            continue;
+        }
+        let Some(tr) = tcx.impl_opt_trait_ref(did) else { continue };
+        let tr = tr.instantiate_identity().skip_norm_wip();
+        let st = tcx.type_of(did).instantiate_identity().skip_norm_wip();
+        let (file, line) = span_loc(tcx, tcx.def_span(did));
+        let preds: Vec<J> = tcx
+            .predicates_of(did)
+            .instantiate_identity(tcx)
+            .predicates
+            .iter()
+            .map(|p| J::s(format!("{:?}", p.skip_norm_wip().kind().skip_binder())))
+            .collect();
+        let mut o: Vec<(&'static str, J)> = vec![
+            ("self_ty", J::s(ty_s(st))),
+            ("trait", J::s(tcx.def_path_str(tr.def_id))),
+            ("trait_full", J::s(format!("{:?}", tr))),
+            ("file", J::s(file)),
+            ("line", J::Int(line as i128)),
+            ("preds", J::Arr(preds)),
+            ("n_items", J::Int(tcx.associated_item_def_ids(did).len() as i128)),
+        ];
+        if let ty::Adt(def, _) = st.kind() {
+            o.push(("self_head", J::s(tcx.def_path_str(def.did()))));
+        }
+        out.push(J::Obj(o));
+    }
+    J::Arr(out)
+}
+
 fn dump_unsafe<'tcx>(tcx: TyCtxt<'tcx>) -> J {
     // unsafe blocks in HIR, outside macro expansions
     use rustc_hir::intravisit::{self, Visitor};
@@ -1028,6 +1065,7 @@ fn dump_crate<'tcx>(tcx: TyCtxt<'tcx>) -> J {
         ("bodies", J::Arr(bodies)),
         ("adts", dump_adts(tcx)),
         ("fns", dump_fns(tcx)),
+        ("impls", dump_impls(tcx)),
         ("unsafe_blocks", dump_unsafe(tcx)),
     ])
 }
